@@ -449,6 +449,9 @@ def rules(ctx):
     # "the same seeded call repeated": an algorithm object run twice builds its samplers anew (same rule as C07.R13)
     # "independent of logging": printing the algorithm (`__str__` of the samplers) changes nothing - the proposal scales have `_update_std` as
     # their only writer, in-place writes through a view included (same rule as C19.R3)
+    # "the same seeded call repeated": what the caller put into the settings (the table of visits) is the same at the second call (same rule as C13.R15)
+    from .c13 import r15_user_objects_in_the_settings_only_read
+    r15_user_objects_in_the_settings_only_read(ctx, rid="C11.R18", why="the second, identically seeded call built from the same settings sees another table (another order of the subjects) and gives the draws to other subjects")
     from .c19 import r3_std
     r3_std(ctx, rid="C11.R17", title="the proposal scales are written by _update_std only (printing a sampler, logging, ... never rescales them)")
     from .c07 import r13_fresh_samplers_every_run
